@@ -123,7 +123,7 @@ func effectiveKeyOv(spec RenderSpec, heavyOverwritten bool) string {
 		if spec.Via == ViaPkg {
 			name = "utf8-heavy"
 		}
-		if (spec.Via == ViaAuto || spec.Via == ViaAutoFn) && (name == "custom" || name == "derived") {
+		if (spec.Via == ViaAuto || spec.Via == ViaAutoFn) && (name == "custom" || name == "derived" || name == "boxless-inner") {
 			name = "utf8-heavy"
 		}
 		if (spec.Via == ViaAuto || spec.Via == ViaAutoFn) && name == "utf8-heavy" && spec.Flags&2 != 0 {
